@@ -108,6 +108,39 @@ def run(args):
     v = [okk for okk, _ in multi.validate(ck, [t0, t1, t2, t3])]
     print('TraceMulti :', v)
     ok &= v == [True, False, False, False]
+    # --- TraceAudit: the sizes a report shows are bound to the model's probe loop ------------------------------
+    from checks import c12
+    e = dict(moduli=[3072], style='openssh', openssh=True, gex=[c12.GEX256])
+    gcfg = c12.server_cfg(e)
+    gsc = {'argv': ['-n', '--skip-rate-test', audit.HOST], 'servers': {(audit.HOST, 22): gcfg}}
+    gr = dict(runner.run_one(gsc), argv=gsc['argv'])
+    gsrv = audit.srv_of(gcfg, True, dh, argv=gsc['argv'])
+    g1 = copy.deepcopy(gr)
+    g1['stdout'] = g1['stdout'].replace('(3072-bit)', '(2048-bit)')                          # the report shows the fallback size the follow-up probe superseded
+    g2 = copy.deepcopy(gr)
+    g2['stdout'] = g2['stdout'].replace(' (3072-bit)', '')                                   # the report shows no size although one was recorded
+    v = [okk for okk, _ in audit.validate(ck, [(gsrv, gr), (gsrv, g1), (gsrv, g2)], diagnose=False)]
+    print('TraceAudit (sizes shown):', v)
+    ok &= v == [True, False, False]
+    # --- SshSched / harness.sched: the plan decides which worker runs ---------------------------------------------
+    tg2 = [('server', S['rsa1024']), ('server', S['rsa4096'])]
+    sc2s, labels2 = multi.scenario(tg2, 2, None, json_out=True)
+    plans, covered = multi.schedule_plans(ck, [4, 3], 2)
+    grid = {(i, j) for i in range(5) for j in range(4)}
+    print('SshSched   : %d plans for <<4, 3>> with 2 preemptions; grid covered: %s' % (len(plans), grid <= covered))
+    ok &= grid <= covered
+    orders = []
+    for pl in ([[0, -1], [1, -1]], [[1, -1], [0, -1]], [[0, 5], [1, 7], [0, -1], [1, -1]]):
+        rr = runner.run_one(multi.scheduled(sc2s, pl, labels2))
+        seq = [e['target'] for e in rr['events'] if e.get('ev') == 'end']
+        conn = [e['host'] for e in rr['events'] if e.get('ev') == 'connect']
+        orders.append((seq, conn[:2], rr.get('sched', {}).get('forfeits')))
+    print('harness.sched:', orders)
+    # worker 0 alone first => its target ends first and both first connections are its own; the reverse plan reverses that; the
+    # interleaved plan has worker 1 connect before worker 0 has made its second connection
+    ok &= orders[0][0] == labels2 and orders[1][0] == labels2[::-1]
+    ok &= orders[0][1] == [labels2[0].split(':')[0]] * 2 and orders[1][1] == [labels2[1].split(':')[0]] * 2
+    ok &= orders[2][1] == [labels2[0].split(':')[0], labels2[1].split(':')[0]]
     if 'seeds' in args:
         ok &= seeds()
     if 'benign' in args:
